@@ -292,6 +292,51 @@ func c01units(tier string) []mc.Unit {
 		r.AddTransitions(int64(len(cases)))
 		r.AddNontrivial(int64(len(cases)))
 	}})
+	// every subset of the five sub-keywords of a REFERENCE block, in each of two references
+	us = append(us, mc.Unit{Name: "reference-subsets", Weight: 30, Run: func(r *mc.Recorder) {
+		var tags []string
+		var base gbRec
+		once(func(c *mc.Ctx) { base = gbGenRecord(c, gbGenOpts{maxFeatures: 1, lengths: []int{60}}, 0, &tags) })
+		var cnt int64
+		mk := func(i, mask int) gbRef {
+			ref := gbRef{index: i, rng: "(bases 1 to 60)"}
+			if mask&1 != 0 {
+				ref.authors = fmt.Sprintf("Author%d,A. and Other,B.", i)
+			}
+			if mask&2 != 0 {
+				ref.title = fmt.Sprintf("Title number %d of the reference", i)
+			}
+			if mask&4 != 0 {
+				ref.journal = fmt.Sprintf("J. Verif. %d (1), 1-2 (2000)", i)
+			}
+			if mask&8 != 0 {
+				ref.pubmed = fmt.Sprint(7000 + i)
+			}
+			if mask&16 != 0 {
+				ref.remark = fmt.Sprintf("Erratum:[J. Verif. 2000;%d(2):99]", i)
+			}
+			return ref
+		}
+		for m1 := 0; m1 < 32; m1++ {
+			for m2 := 0; m2 < 32; m2++ {
+				rec := base
+				rec.refs = []gbRef{mk(1, m1), mk(2, m2)}
+				cas := fmt.Sprintf("two references with sub-keyword sets %05b and %05b (bits: AUTHORS, TITLE, JOURNAL, PUBMED, REMARK)", m1, m2)
+				var got poly.Sequence
+				cnt++
+				if p := catch(func() { got = genbank.Parse([]byte(gbWrite(rec))) }); p != "" {
+					r.Failf("no-panic", cas, []string{"reference-subset"}, "a record", "panic: "+p)
+					continue
+				}
+				c1compare(rec, got, func(clause, exp, g string) { r.Failf(clause, cas, []string{"reference-subset"}, exp, g) })
+			}
+		}
+		r.Eval(cnt)
+		r.AddStates(cnt)
+		r.AddTransitions(cnt)
+		r.AddNontrivial(cnt)
+		r.Bound("reference-subsets", "all 32 x 32 subsets of AUTHORS, TITLE, JOURNAL, PUBMED, REMARK in two references")
+	}})
 	// every printable character at a wrap point: as the last character of a full line, as the first character of a
 	// continuation line and as a one-letter word at either place, in a qualifier value, the DEFINITION and a COMMENT
 	us = append(us, mc.Unit{Name: "wrap-boundaries", Weight: 40, Run: func(r *mc.Recorder) {
